@@ -293,26 +293,220 @@ func C07(c *core.Ctx) {
 		c.Ob("C07-R5", "UNRESOLVED:c14n.handleObject", token.NoPos, false, "function not found")
 	}
 
-	// R6 invalid UTF-8
+	// R6 invalid UTF-8: one iteration of the encoder's loop is evaluated for a non-ASCII lead
+	// byte with the three things utf8.DecodeRuneInString can answer — an invalid byte
+	// (RuneError, size 1), the replacement character itself (RuneError, size 3: what the JSON
+	// decoder has already put in place of invalid input) and a valid rune — the first two
+	// must end in an error return, the third must write nothing and advance by the size
 	if fd := p.Func("c14n", "", "encodeString"); fd != nil {
-		ff := core.NewFuncFlow(fd)
-		ok := false
-		for _, r := range ff.Flow.Returns() {
-			for leaf, val := range ff.Flow.CondsAt(r) {
-				be, isB := ast.Unparen(leaf).(*ast.BinaryExpr)
-				if !isB || be.Op != token.EQL || !val {
-					continue
-				}
-				if se, isS := ast.Unparen(be.Y).(*ast.SelectorExpr); isS && se.Sel.Name == "RuneError" {
-					if k, _ := ff.ClassifyReturn(p, r); k == core.RetFailure {
-						ok = true
-					}
+		info := fd.Pkg.TypesInfo
+		sig := fd.Obj.Type().(*types.Signature)
+		var loopBody *ast.BlockStmt
+		var idxVar *types.Var
+		for _, st := range fd.Decl.Body.List {
+			if x, ok := st.(*ast.ForStmt); ok && loopBody == nil {
+				if as, ok := x.Init.(*ast.AssignStmt); ok && len(as.Lhs) == 1 {
+					loopBody, idxVar = x.Body, core.VarOf(info, as.Lhs[0])
 				}
 			}
 		}
-		c.Ob("C07-R6", fd.Name()+"#rune-error-rejected", fd.Decl.Pos(), ok, "a decoding error (utf8.RuneError) in a string does not lead to an error return")
+		if loopBody == nil || idxVar == nil || sig.Params().Len() != 1 {
+			c.Undecided("C07-R6", fd.Name()+"#rune-error-rejected", fd.Decl.Pos(), "the loop over the input bytes was not found")
+		} else {
+			sParam := sig.Params().At(0)
+			var diffs []string
+			undecided := ""
+			for _, tc := range []struct {
+				name      string
+				r, size   int64
+				wantError bool
+			}{{"an invalid byte (RuneError, size 1)", 0xFFFD, 1, true}, {"the replacement character U+FFFD (RuneError, size 3)", 0xFFFD, 3, true}, {"a valid two-byte rune", 0xE9, 2, false}} {
+				tc := tc
+				wrote := false
+				ev := &core.AbsEval{Info: info}
+				ev.Branch = func(br *ast.BranchStmt) ([]any, bool) {
+					return []any{"next"}, br.Tok == token.CONTINUE && br.Label == nil
+				}
+				ev.Atom = func(e ast.Expr) (any, bool) {
+					e = ast.Unparen(e)
+					if core.IsNil(info, e) {
+						return "nil", true
+					}
+					switch x := e.(type) {
+					case *ast.IndexExpr:
+						if core.VarOf(info, x.X) == sParam {
+							return int64(0xC3), true
+						}
+					case *ast.UnaryExpr:
+						if x.Op == token.AND {
+							if _, isLit := ast.Unparen(x.X).(*ast.CompositeLit); isLit {
+								return "error", true
+							}
+						}
+					case *ast.CallExpr:
+						if t := info.TypeOf(x); t != nil && types.Identical(t, types.Universe.Lookup("error").Type()) {
+							return "error", true
+						}
+					}
+					return nil, false
+				}
+				ev.Tuple = func(call *ast.CallExpr) ([]any, bool) {
+					if fn := core.Callee(info, call); fn != nil && fn.Pkg() != nil && fn.Pkg().Path() == "unicode/utf8" && (fn.Name() == "DecodeRuneInString" || fn.Name() == "DecodeRune") {
+						return []any{tc.r, tc.size}, true
+					}
+					return nil, false
+				}
+				ev.Effect = func(call *ast.CallExpr) bool {
+					if fn := core.Callee(info, call); fn != nil && fn.Pkg() != nil && fn.Pkg().Path() == "bytes" && strings.HasPrefix(fn.Name(), "Write") {
+						wrote = true
+					}
+					return true
+				}
+				for _, st := range fd.Decl.Body.List {
+					if as, ok := st.(*ast.AssignStmt); ok && len(as.Lhs) == len(as.Rhs) && st.Pos() < loopBody.Pos() {
+						for i, l := range as.Lhs {
+							if v := core.VarOf(info, l); v != nil {
+								if tv, ok := info.Types[as.Rhs[i]]; ok && tv.Value != nil && tv.Value.Kind() == constant.Int {
+									n, _ := constant.Int64Val(tv.Value)
+									ev.Set(v, n)
+								}
+							}
+						}
+					}
+				}
+				ev.Set(idxVar, int64(1))
+				ret, reached, ok := ev.RunList(loopBody.List)
+				if !ok {
+					undecided = "one iteration could not be evaluated for " + tc.name
+					break
+				}
+				isErr := reached && len(ret) == 2 && ret[1] == any("error")
+				iv, _ := ev.VarValue(idxVar).(int64)
+				switch {
+				case tc.wantError && !isErr:
+					diffs = append(diffs, tc.name+" does not end in an error return")
+				case !tc.wantError && (isErr || wrote || iv != 1+tc.size):
+					diffs = append(diffs, tc.name+" is not passed over as it is (written, rejected, or the position is not advanced by its size)")
+				}
+			}
+			if undecided != "" {
+				c.Undecided("C07-R6", fd.Name()+"#rune-error-rejected", fd.Decl.Pos(), undecided)
+			} else {
+				c.Ob("C07-R6", fd.Name()+"#rune-error-rejected", fd.Decl.Pos(), len(diffs) == 0,
+					"text that is not valid UTF-8 is not rejected (README §8.3): "+strings.Join(diffs, "; "))
+			}
+		}
 	} else {
 		c.Ob("C07-R6", "UNRESOLVED:c14n.encodeString", token.NoPos, false, "function not found")
+	}
+	c07StringsEncoded(c)
+}
+
+// c07StringsEncoded — C07-R8: the raw text of an object key and of a string
+// value reaches the output only through encodeString: every use of the key /
+// the string in the two marshallers is the argument of encodeString, or of a
+// function of the package every return of which is encodeString of that very
+// parameter. A second, "faster" encoder for keys that are thought to be plain
+// is where escaping rules drift apart.
+func c07StringsEncoded(c *core.Ctx) {
+	p := c.P
+	c.Rule("C07-R8", "keys and string values are written only through encodeString", 2)
+	enc := p.Func("c14n", "", "encodeString")
+	if enc == nil {
+		c.Ob("C07-R8", "UNRESOLVED:c14n.encodeString", token.NoPos, false, "function not found")
+		return
+	}
+	var encodesOnly func(fn *types.Func, depth int) bool
+	encodesOnly = func(fn *types.Func, depth int) bool {
+		if fn == enc.Obj {
+			return true
+		}
+		fd := p.DeclOf(fn)
+		if fd == nil || depth > 2 || fn.Pkg() != enc.Obj.Pkg() {
+			return false
+		}
+		sig := fn.Type().(*types.Signature)
+		if sig.Params().Len() != 1 {
+			return false
+		}
+		info := fd.Pkg.TypesInfo
+		ok, n := true, 0
+		ast.Inspect(fd.Decl.Body, func(m ast.Node) bool {
+			if _, isLit := m.(*ast.FuncLit); isLit {
+				return false
+			}
+			r, isR := m.(*ast.ReturnStmt)
+			if !isR {
+				return true
+			}
+			n++
+			if len(r.Results) != 1 {
+				ok = false
+				return true
+			}
+			call, isCall := ast.Unparen(r.Results[0]).(*ast.CallExpr)
+			if !isCall || len(call.Args) != 1 || core.VarOf(info, call.Args[0]) != sig.Params().At(0) {
+				ok = false
+				return true
+			}
+			if cf := core.Callee(info, call); cf == nil || !encodesOnly(cf, depth+1) {
+				ok = false
+			}
+			return true
+		})
+		return ok && n > 0
+	}
+	check := func(fd *core.FuncDecl, what string, isRaw func(info *types.Info, e ast.Expr) bool) {
+		info := fd.Pkg.TypesInfo
+		okAll, n := true, 0
+		why := ""
+		// parents of each raw occurrence
+		var stack []ast.Node
+		ast.Inspect(fd.Decl.Body, func(m ast.Node) bool {
+			if m == nil {
+				stack = stack[:len(stack)-1]
+				return true
+			}
+			stack = append(stack, m)
+			e, isE := m.(ast.Expr)
+			if !isE || !isRaw(info, e) {
+				return true
+			}
+			n++
+			// climb through conversions and parentheses to the call the text is handed to
+			i := len(stack) - 2
+			for ; i >= 0; i-- {
+				switch x := stack[i].(type) {
+				case *ast.ParenExpr:
+					continue
+				case *ast.CallExpr:
+					if tv, ok := info.Types[x.Fun]; ok && tv.IsType() {
+						continue // string(o)
+					}
+					if fn := core.Callee(info, x); fn != nil && encodesOnly(fn, 0) {
+						return false
+					}
+				}
+				break
+			}
+			okAll = false
+			why = p.Rel(e.Pos())
+			return false
+		})
+		c.Ob("C07-R8", fd.Name()+"#"+what, fd.Decl.Pos(), okAll && n > 0,
+			"the "+what+" is used at "+why+" other than as the argument of encodeString: it can reach the canonical output without the escaping of README §8")
+	}
+	if fd := p.Func("c14n", "Attribute", "MarshalJSON"); fd != nil {
+		recv := recvVar(fd)
+		check(fd, "key", func(info *types.Info, e ast.Expr) bool { return core.IsFieldOfVar(info, e, recv, "Key") })
+	} else {
+		c.Ob("C07-R8", "UNRESOLVED:c14n.Attribute.MarshalJSON", token.NoPos, false, "method not found")
+	}
+	if fd := p.Func("c14n", "String", "MarshalJSON"); fd != nil {
+		recv := recvVar(fd)
+		check(fd, "string value", func(info *types.Info, e ast.Expr) bool { return recv != nil && core.VarOf(info, e) == recv })
+	} else {
+		c.Ob("C07-R8", "UNRESOLVED:c14n.String.MarshalJSON", token.NoPos, false, "method not found")
 	}
 }
 
